@@ -155,6 +155,11 @@ def jobs(tier, seed):
             c2 = {"in": ev[:1], "out": ["z"], "a": [{ev[0]: sg}], "g": [{"z": 1, ev[0]: -1}]}
             for op in ("compose", "elim-refine", "elim-relax", "quotient"):
                 adv.append({"op": op, "c1": c1, "c2": c2})
+            # the same dead end met by two terms in a row (the second must still be processed normally)
+            c3 = {"in": ev[:1] + ["a", "b"], "out": ["z"], "a": [{ev[0]: sg, "a": 1}, {ev[0]: -sg, "b": 1}], "g": [{"z": 1, ev[0]: -1}]}
+            if depth == 2:
+                for op in ("compose", "elim-refine", "elim-relax"):
+                    adv.append({"op": op, "c1": c1, "c2": c3})
     # a dividend guarantee that a tactic transforms although the quotient as a whole fails (leftover internal variable)
     adv.append({"op": "quotient", "c1": {"in": ["i"], "out": ["o", "p"], "a": [], "g": [{"o": 1, "i": -1}, {"p": 1, "i": 1}]}, "c2": {"in": ["i"], "out": ["m"], "a": [], "g": [{"m": 1, "i": -1}, {"m": -1, "i": 1}]}})
     adv.append({"op": "quotient", "c1": {"in": ["i"], "out": ["o", "p"], "a": [{"i": 1}], "g": [{"o": 1, "i": -2}, {"p": -1, "i": 1}]}, "c2": {"in": ["i"], "out": ["m"], "a": [{"i": 1}], "g": [{"m": 1, "i": -1}]}})
@@ -223,6 +228,21 @@ def adversarial(ctx, job, hold):
     raise ValueError(op)
 
 
+def _well_formed(ctx, job, res):
+    """A value that is returned (instead of an error) holds term lists made of terms only."""
+    P = B.P()
+    stack, bad = [res], []
+    while stack:
+        o = stack.pop()
+        if isinstance(o, (list, tuple)):
+            stack.extend(o)
+        elif isinstance(o, P.PolyhedralTermList):
+            bad += [type(t).__name__ for t in o.terms if not isinstance(t, P.PolyhedralTerm)]
+        elif hasattr(o, "a") and hasattr(o, "g") and hasattr(o, "inputvars"):
+            stack.extend([o.a, o.g])
+    ctx.expect("a-returned-object-is-well-formed", not bad, info=f"{job['op']}: term list contains {bad}")
+
+
 def meaning_rows(c):
     return list(O.rows_of(c.a)), list(O.rows_of(c.g))
 
@@ -243,7 +263,8 @@ def run(ctx, job):
         ctx.tag("adversarial")
         hold = {}
         try:
-            adversarial(ctx, job, hold)
+            res = adversarial(ctx, job, hold)
+            _well_formed(ctx, job, res)
         except Exception as e:
             cls = B.classify(e)
             if cls.startswith("ESC:"):
